@@ -111,7 +111,7 @@ fn check(ctx: &Ctx, i: u64, respellings: u64) {
 }
 
 pub fn run(ctx: &Ctx) -> i32 {
-    let n = ctx.tier.pick(2_000u64, 100_000u64);
+    let n = ctx.tier.pick(2_000u64, 500_000u64);
     let k = ctx.tier.pick(8u64, 16u64);
     fw::par_for(n, 16, |i| check(ctx, i, k));
     fw::finish(
